@@ -59,3 +59,16 @@ func Catch(f func()) (p string) {
 	f()
 	return ""
 }
+
+// CatchStack is Catch with the panicking goroutine's stack appended after a newline.
+func CatchStack(f func()) (p string) {
+	defer func() {
+		if e := recover(); e != nil {
+			buf := make([]byte, 4096)
+			buf = buf[:runtime.Stack(buf, false)]
+			p = fmt.Sprint(e) + "\n" + string(buf)
+		}
+	}()
+	f()
+	return ""
+}
